@@ -17,8 +17,8 @@ for pid in sorted(props.PROPS):
     print('| %s | %s%s | %s | %s / %s discharged | %s s |' % (pid, ', '.join(p['units']), (' + ' + ', '.join(p['kani'])) if p.get('kani') else '',
           p.get('level', 'proof'), cov.get('discharged', '?'), cov.get('obligations', '?'), ev.get('wall_s', '?')))
 print()
-print('| seeded change | property | what it needs to manifest | caught by | first failed obligation | concrete input found |')
-print('|---|---|---|---|---|---|')
+print('| seeded change | property | what it needs to manifest | caught by | first failed obligation | concrete input found | first evaluation (before the check was strengthened) |')
+print('|---|---|---|---|---|---|---|')
 sd = os.path.join(V, 'seeded')
 for m in sorted(os.listdir(sd)):
     mp = os.path.join(sd, m, 'meta.json')
@@ -29,6 +29,8 @@ for m in sorted(os.listdir(sd)):
         ob = c.get('first_failed_obligation') or {}
         w = c.get('witness_input')
         caught = 'bin/check %s exit %d (%d violation lines)' % (p, c['exit'], c['violations']) if c['exit'] == 1 else ('**missed** (exit %d)' % c['exit'])
-        print('| %s | %s | %s | %s | %s | %s |' % (m, d['property'], (d.get('needs_to_manifest') or '').replace('|', '/').replace('\n', ' ')[:160],
+        fe = (d.get('first_evaluation') or {}).get(p)
+        fes = '' if not fe or fe.get('exit') == 1 else ('exit %d: %s' % (fe['exit'], '; '.join(x.replace('UNDECIDED property=%s ' % p, '') for x in (fe.get('undecided') or ['no obligation failed']))[:140])).replace('|', '/')
+        print('| %s | %s | %s | %s | %s | %s | %s |' % (m, d['property'], (d.get('needs_to_manifest') or '').replace('|', '/').replace('\n', ' ')[:160],
               caught, ('%s : %s' % (ob.get('function', ob.get('kani_harness', '')), ob.get('clause') or ob.get('kind') or '')).replace('|', '/')[:110],
-              ('`%s %s %s n=%s %s` → got %s' % (w['op'], w['lhs'], w['rhs'], w['n'], w['mode'], w['got'])).replace('|', '/')[:150] if w else 'no-failing-input-found'))
+              ('`%s %s %s n=%s %s` → got %s' % (w['op'], w['lhs'], w['rhs'], w['n'], w['mode'], w['got'])).replace('|', '/')[:150] if w else 'no-failing-input-found', fes))
